@@ -19,6 +19,7 @@ func TestCheck(t *testing.T) { enumx.Main(t, "C17", "readonly", run) }
 type Case struct {
 	Scenario string `json:"scenario"`
 	Spare    []int  `json:"spare"`
+	Adjacent []int  `json:"adjacent,omitempty"` // {a, b}: argument b directly behind argument a
 	Layout   string `json:"layout"`
 }
 
@@ -37,7 +38,7 @@ func run(r *enumx.Run, replay *enumx.ReplayCase) {
 				if sc.id != c.Scenario {
 					continue
 				}
-				fs, _ := sc.evaluate(c.Spare)
+				fs, _ := sc.evaluate(layout{spare: c.Spare, adj: c.Adjacent})
 				for _, f := range fs {
 					if f.key == replay.Key {
 						r.Violation(f.key, f.msg, c)
@@ -52,7 +53,7 @@ func run(r *enumx.Run, replay *enumx.ReplayCase) {
 		r.Violation("machinery/unknown-scenario", c.Scenario, nil)
 		return
 	}
-	r.Rule("complete product, no sampling: every exported function of crypto, crypto/aeskw, crypto/padding, crypto/aescbcaead that takes []byte x every algorithm it supports (+ an unsupported constant and a junk name) x its success path and each failure path (wrong key size, wrong nonce size, wrong tag size, failed authentication of tag / ciphertext, invalid padding, invalid plaintext / ciphertext length, unknown algorithm, wrong key kind, message too long, wrong label, bad signature ...) x lengths 0,1,15,16,17,31,32,33 (thorough: every length 0..34 and 47,48,49,63,64,65; key wrap 16,24,32,40) x spare-capacity layouts: every argument at once with spare 0,1,15,16,17,64 and each argument alone with spare 1,15,16,17,64 (AEAD dst also 160) x dst in {nil, empty, 4-byte prefix, input[:0]}. Every byte-slice argument, including the octets behind the jwk.Key, lies in one canary-filled arena; a case is a (scenario, layout) pair, distinct by construction, and non-trivial when some argument has spare capacity or is a destination.")
+	r.Rule("complete product, no sampling: every exported function of crypto, crypto/aeskw, crypto/padding, crypto/aescbcaead that takes []byte x every algorithm it supports (+ an unsupported constant and a junk name) x its success path and each failure path (wrong key size, wrong nonce size, wrong tag size, failed authentication of tag / ciphertext, invalid padding, invalid plaintext / ciphertext length, unknown algorithm, wrong key kind, message too long, wrong label, bad signature ...) x lengths 0,1,15,16,17,31,32,33 (thorough: every length 0..34 and 47,48,49,63,64,65; key wrap 16,24,32,40) x spare-capacity layouts: every argument at once with spare 0,1,15,16,17,64 and each argument alone with spare 1,15,16,17,64 (AEAD dst also 160), and every ordered pair of input arguments contiguous in memory (b directly behind a, so that cap(a) extends over b; 0 and 16 bytes of spare behind b) x dst in {nil, empty, 4-byte prefix, input[:0]}. Every byte-slice argument, including the octets behind the jwk.Key, lies in one canary-filled arena; a case is a (scenario, layout) pair, distinct by construction, and non-trivial when some argument has spare capacity or is a destination.")
 	r.Assume("Go slices give no way to write outside [0, cap): canaries cover len..cap of every argument, 32 guard bytes between arguments, and the arguments themselves")
 	r.Assume("aliasing is judged on the []byte values a call returns (whole capacity) against each argument's [0, cap); a returned jwk.Key or cipher.AEAD that keeps a reference to key material is outside the property (it is about writes)")
 	r.Assume("aeskw.Unwrap inputs below 16 bytes are not fed (it panics before touching anything: C07)")
@@ -80,9 +81,9 @@ func run(r *enumx.Run, replay *enumx.ReplayCase) {
 		for _, lay := range layouts(sc) {
 			fs, out := sc.evaluate(lay)
 			cnt++
-			nz := false
+			nz := lay.adj != nil
 			for j, a := range sc.args {
-				nz = nz || (a.carve && (lay[j] > 0 || a.dst))
+				nz = nz || (a.carve && (lay.spare[j] > 0 || a.dst))
 			}
 			if nz {
 				nt++
@@ -94,7 +95,7 @@ func run(r *enumx.Run, replay *enumx.ReplayCase) {
 				mu.Unlock()
 			}
 			for _, f := range fs {
-				found[i] = append(found[i], pending{f, Case{Scenario: sc.id, Spare: lay, Layout: layoutString(sc, lay)}})
+				found[i] = append(found[i], pending{f, Case{Scenario: sc.id, Spare: lay.spare, Adjacent: lay.adj, Layout: layoutString(sc, lay)}})
 			}
 		}
 		r.Count(cnt, nt)
@@ -140,6 +141,6 @@ func run(r *enumx.Run, replay *enumx.ReplayCase) {
 	}
 	for _, i := range []int{0, len(scs) / 3, 2 * len(scs) / 3, len(scs) - 1} {
 		lay := layouts(scs[i])
-		r.Sample(Case{Scenario: scs[i].id, Spare: lay[len(lay)-1], Layout: layoutString(scs[i], lay[len(lay)-1])})
+		r.Sample(Case{Scenario: scs[i].id, Spare: lay[len(lay)-1].spare, Adjacent: lay[len(lay)-1].adj, Layout: layoutString(scs[i], lay[len(lay)-1])})
 	}
 }
